@@ -528,7 +528,20 @@ func (v *Value) EqualValueTo(other *Value) bool {
 	// be used here: https://pkg.go.dev/reflect#Value.Comparable
 	return v.val.CanInterface() && other.val.CanInterface() &&
 		v.val.Type().Comparable() && other.val.Type().Comparable() &&
-		v.Interface() == other.Interface()
+		interfacesEqual(v.Interface(), other.Interface())
+}
+
+// interfacesEqual compares two values of comparable types; a struct or
+// interface may still hold something that cannot be compared (a slice in an
+// any-typed field), which Go reports with a run-time panic: such values are
+// not equal.
+func interfacesEqual(a, b any) (equal bool) {
+	defer func() {
+		if recover() != nil {
+			equal = false
+		}
+	}()
+	return a == b
 }
 
 type sortedKeys []reflect.Value
